@@ -1122,3 +1122,159 @@ Proof.
   vm_compute; reflexivity.
 Qed.
 (* ==== round3 v6lax end ==== *)
+
+(* ==== round3 c06rd begin ==== *)
+(* ---- group 3: the two families of `read` transliterations are ONE reader ------------------------
+   The outcome-level theorems (C06_read_eq_slice, C06_read_ok_consumes, ...) run the read PROGRAMS
+   of IoFault/Model.v (C16) on a Cursor: `read_outcome`.  The value-level theorems
+   (the C06_read_value theorems) are about the value readers of Roundtrip/*.v (C08; C12's read6 for
+   Ipv6Extensions).  Equiv/ReadLink.v, Equiv/ReadLinkIp.v: for every byte string the outcome of the
+   program IS the outcome of the value reader (`rt_read_outcome t bs`, per type `rt_outcome`):
+     Ok (h, rest)      <-> OOk (len bs - len rest)      cursor position = bytes consumed
+     Err EIo           <-> OEof
+     Err (EContent c)  <-> OContent k, k the kind of code c (the code carries the offending value)
+     Err ELen          <-> a LimitedReader length error (IpHeaders / Ipv6Extensions::read_limited;
+                           the value reader keeps no record: compared after `erase_len`)
+     Err EOOB | EPanic <-> OBad, which C06_read_never_bad excludes
+   Plain equality for the 15 types whose reader has no LimitedReader and no loop; all 17 after
+   erase_len.  bytes_ok: a length "octet" >= 256 sends a value reader into a model failure. *)
+From EP Require Equiv.ReadLink Equiv.ReadLinkIp Equiv.ReadValueErr.
+
+Theorem C06_read_link : forall t bs, bytes_ok bs ->
+  Equiv.ReadLink.erase_len (read_outcome t bs) = Equiv.ReadLinkIp.rt_read_outcome t bs.
+Proof. exact Equiv.ReadLinkIp.read_link. Qed.
+Print Assumptions C06_read_link.
+
+Theorem C06_read_link_exact : forall t bs, bytes_ok bs -> Equiv.ReadLinkIp.plain_reader t = true ->
+  read_outcome t bs = Equiv.ReadLinkIp.rt_read_outcome t bs.
+Proof. exact Equiv.ReadLinkIp.read_link_exact. Qed.
+Print Assumptions C06_read_link_exact.
+
+(* non-vacuity: Ok with the cursor position (TCP with 4 option bytes + 1 byte behind), a content
+   rejection whose code carries the value (IPv4 IHL 3), end of data, and the LimitedReader error of
+   IpHeaders::read (C06_ex_read_all's ex_v6 12), all on both sides *)
+Example C06_ex_read_link :
+  let tcp := repeat 0 12 ++ [96] ++ repeat 0 11 ++ [7] in
+  (bytes_okb tcp = true /\ read_outcome HTcp tcp = OOk 24 /\ Equiv.ReadLinkIp.rt_read_outcome HTcp tcp = OOk 24 /\
+   exists h, Roundtrip.Tcp.read tcp = Roundtrip.Common.Ok (h, [7])) /\
+  (read_outcome HIpv4 ([67] ++ repeat 0 19) = OContent (KC CIhl) /\
+   Equiv.ReadLinkIp.rt_read_outcome HIpv4 ([67] ++ repeat 0 19) = OContent (KC CIhl) /\
+   Roundtrip.Ipv4.ip4_read ([67] ++ repeat 0 19) = Roundtrip.Common.Err (Roundtrip.Common.EContent 3)) /\
+  (read_outcome HArp [0;1;8;0;6;4;0;1;9] = OEof /\ Equiv.ReadLinkIp.rt_read_outcome HArp [0;1;8;0;6;4;0;1;9] = OEof) /\
+  (bytes_okb (ex_v6 12) = true /\
+   read_outcome HIpHeaders (ex_v6 12) = OLen 8 4 LS_IPV6_PAYLOAD L_IPV6FRAG 48 /\
+   Equiv.ReadLinkIp.rt_read_outcome HIpHeaders (ex_v6 12) = OLen 0 0 0 0 0 /\
+   Roundtrip.IpHeaders.iph_read (ex_v6 12) = Roundtrip.Common.Err Roundtrip.Common.ELen) /\
+  (read_outcome HIpHeaders (ex_v6 24) = OOk 56 /\ Equiv.ReadLinkIp.rt_read_outcome HIpHeaders (ex_v6 24) = OOk 56).
+Proof.
+  cbv zeta. split; [split; [vm_compute; reflexivity|]; split; [vm_compute; reflexivity|];
+                    split; [vm_compute; reflexivity|]; eexists; vm_compute; reflexivity|].
+  repeat split; vm_compute; reflexivity.
+Qed.
+
+(* ---- the offending VALUE of content rejections: Ipv6Header and IpHeaders ---------------------------
+   Ipv6Header on the C08 model Roundtrip/Ipv6.v (struct, unread rest, `EContent version_number`),
+   for every byte string outside cut_fixed (inside, the two differ: C06_read_cut_fixed_inside);
+   replaces the `40 <= len` hypothesis of C06_read_value_ipv6 and adds rest + version number.
+   The same weakening for Ipv4Header (C06_read_value_ipv4 had `20 <= len`). *)
+Theorem C06_read_value_ipv6_full : forall bs, cut_fixed HIpv6 bs = false ->
+  Roundtrip.Ipv6.ip6_read bs = eof_of_len (Roundtrip.Ipv6.ip6_from_slice bs).
+Proof. exact Equiv.ReadValueErr.ip6_read_eq_from_slice_cut. Qed.
+Print Assumptions C06_read_value_ipv6_full.
+
+Theorem C06_read_value_ipv4_full : forall bs, bytes_ok bs -> cut_fixed HIpv4 bs = false ->
+  Roundtrip.Ipv4.ip4_read bs = eof_of_len (Roundtrip.Ipv4.ip4_from_slice bs).
+Proof. exact Equiv.ReadValueErr.ip4_read_eq_from_slice_cut. Qed.
+Print Assumptions C06_read_value_ipv4_full.
+
+(* with the link: the read PROGRAM of C06_read_eq_slice against the value-level from_slice *)
+Theorem C06_read_program_eq_value_slice_ipv6 : forall bs, cut_fixed HIpv6 bs = false ->
+  read_outcome HIpv6 bs =
+  Equiv.ReadLink.rt_outcome Equiv.ReadLink.ipv6_kind bs snd (eof_of_len (Roundtrip.Ipv6.ip6_from_slice bs)).
+Proof. exact Equiv.ReadValueErr.read_program_eq_value_slice_ipv6. Qed.
+Print Assumptions C06_read_program_eq_value_slice_ipv6.
+
+Theorem C06_read_program_eq_value_slice_ipv4 : forall bs, bytes_ok bs -> cut_fixed HIpv4 bs = false ->
+  read_outcome HIpv4 bs =
+  Equiv.ReadLink.rt_outcome (Equiv.ReadLink.ipv4_kind bs) bs snd (eof_of_len (Roundtrip.Ipv4.ip4_from_slice bs)).
+Proof. exact Equiv.ReadValueErr.read_program_eq_value_slice_ipv4. Qed.
+Print Assumptions C06_read_program_eq_value_slice_ipv4.
+
+Example C06_ex_read_value_ipv6_full :
+  let v4 := [69] ++ repeat 0 40 in
+  let short6 := [96; 0; 0] in
+  let ok6 := [105;18;52;86;0;8;17;64] ++ repeat 1 16 ++ repeat 2 16 ++ [9] in
+  (cut_fixed HIpv6 v4 = false /\
+   Roundtrip.Ipv6.ip6_read v4 = Roundtrip.Common.Err (Roundtrip.Common.EContent 4) /\
+   Roundtrip.Ipv6.ip6_from_slice v4 = Roundtrip.Common.Err (Roundtrip.Common.EContent 4)) /\
+  (cut_fixed HIpv6 short6 = false /\
+   Roundtrip.Ipv6.ip6_read short6 = Roundtrip.Common.Err Roundtrip.Common.EIo /\
+   Roundtrip.Ipv6.ip6_from_slice short6 = Roundtrip.Common.Err Roundtrip.Common.ELen) /\
+  (cut_fixed HIpv6 ok6 = false /\
+   exists h, Roundtrip.Ipv6.ip6_read ok6 = Roundtrip.Common.Ok (h, [9]) /\
+             Roundtrip.Ipv6.ip6_from_slice ok6 = Roundtrip.Common.Ok (h, [9]) /\
+             Roundtrip.Ipv6.i6_traffic_class h = 145).
+Proof.
+  cbv zeta. split; [repeat split; vm_compute; reflexivity|]. split; [repeat split; vm_compute; reflexivity|].
+  split; [vm_compute; reflexivity|]. eexists. repeat split; vm_compute; reflexivity.
+Qed.
+
+(* IpHeaders (model Roundtrip/IpHeaders.v): the two rejections that carry a value --
+   err::ip::HeaderError::UnsupportedIpVersion{version_number} (code 1000 + version) and
+   Ipv4HeaderLengthSmallerThanHeader{ihl} (code ihl) -- are decided by the first byte on both
+   sides with the same value; from_slice wants 20 bytes before it looks at the IHL (the class
+   cut_fixed).  The other content rejections of IpHeaders (hop-by-hop header not at the start,
+   zero AH payload length) carry no value: C06_read_rejection_iff through C06_read_link. *)
+Theorem C06_read_value_ip_headers_rejections : forall b0 r,
+  (N.shiftr b0 4 <> 4 -> N.shiftr b0 4 <> 6 ->
+   Roundtrip.IpHeaders.iph_read (b0 :: r) =
+     Roundtrip.Common.Err (Roundtrip.IpHeaders.C_UNSUPPORTED_VERSION (N.shiftr b0 4)) /\
+   Roundtrip.IpHeaders.iph_from_slice (b0 :: r) =
+     Roundtrip.Common.Err (Roundtrip.IpHeaders.C_UNSUPPORTED_VERSION (N.shiftr b0 4))) /\
+  (N.shiftr b0 4 = 4 -> N.land b0 15 < 5 ->
+   Roundtrip.IpHeaders.iph_read (b0 :: r) = Roundtrip.Common.Err (Roundtrip.Common.EContent (N.land b0 15)) /\
+   Roundtrip.IpHeaders.iph_from_slice (b0 :: r) =
+     if len (b0 :: r) <? 20 then Roundtrip.Common.Err Roundtrip.Common.ELen
+     else Roundtrip.Common.Err (Roundtrip.Common.EContent (N.land b0 15))).
+Proof. exact Equiv.ReadValueErr.iph_value_rejections. Qed.
+Print Assumptions C06_read_value_ip_headers_rejections.
+
+Theorem C06_read_value_ip_headers_rejections_eq : forall bs, cut_fixed HIpHeaders bs = false ->
+  forall b0 r, bs = b0 :: r ->
+  N.shiftr b0 4 <> 6 -> (N.shiftr b0 4 = 4 -> N.land b0 15 < 5) ->
+  exists c, Roundtrip.IpHeaders.iph_read bs = Roundtrip.Common.Err (Roundtrip.Common.EContent c) /\
+            Roundtrip.IpHeaders.iph_from_slice bs = Roundtrip.Common.Err (Roundtrip.Common.EContent c) /\
+            c = if N.shiftr b0 4 =? 4 then N.land b0 15 else 1000 + N.shiftr b0 4.
+Proof. exact Equiv.ReadValueErr.iph_value_rejections_eq. Qed.
+Print Assumptions C06_read_value_ip_headers_rejections_eq.
+
+Example C06_ex_read_value_ip_headers_rejections :
+  (cut_fixed HIpHeaders ([67] ++ repeat 0 19) = false /\
+   Roundtrip.IpHeaders.iph_read ([67] ++ repeat 0 19) = Roundtrip.Common.Err (Roundtrip.Common.EContent 3) /\
+   Roundtrip.IpHeaders.iph_from_slice ([67] ++ repeat 0 19) = Roundtrip.Common.Err (Roundtrip.Common.EContent 3)) /\
+  (cut_fixed HIpHeaders [112; 1] = false /\
+   Roundtrip.IpHeaders.iph_read [112; 1] = Roundtrip.Common.Err (Roundtrip.Common.EContent 1007) /\
+   Roundtrip.IpHeaders.iph_from_slice [112; 1] = Roundtrip.Common.Err (Roundtrip.Common.EContent 1007)) /\
+  (cut_fixed HIpHeaders [67; 1] = true /\
+   Roundtrip.IpHeaders.iph_read [67; 1] = Roundtrip.Common.Err (Roundtrip.Common.EContent 3) /\
+   Roundtrip.IpHeaders.iph_from_slice [67; 1] = Roundtrip.Common.Err Roundtrip.Common.ELen).
+Proof. repeat split; vm_compute; reflexivity. Qed.
+
+(* ... and these two are the ONLY value-carrying rejections: with version nibble 4 and IHL >= 5, or
+   nibble 6, a content rejection of either side has code 0 (zero AH payload length) or 1
+   (hop-by-hop header not at the start) -- no value to compare *)
+Theorem C06_read_value_ip_headers_no_other_value : forall b0 r c,
+  (N.shiftr b0 4 = 4 /\ 5 <= N.land b0 15) \/ N.shiftr b0 4 = 6 ->
+  Roundtrip.IpHeaders.iph_read (b0 :: r) = Roundtrip.Common.Err (Roundtrip.Common.EContent c) \/
+  Roundtrip.IpHeaders.iph_from_slice (b0 :: r) = Roundtrip.Common.Err (Roundtrip.Common.EContent c) ->
+  c = 0 \/ c = 1.
+Proof. exact Equiv.ReadValueErr.iph_other_rejections_no_value. Qed.
+Print Assumptions C06_read_value_ip_headers_no_other_value.
+
+Example C06_ex_read_value_ip_headers_no_other_value :
+  let ah0 := [69;0;0;32; 0;0;0;0; 64;51;0;0; 10;0;0;1; 10;0;0;2] ++ [17;0;0;0; 0;0;0;1; 0;0;0;2] in
+  N.shiftr 69 4 = 4 /\ 5 <= N.land 69 15 /\
+  Roundtrip.IpHeaders.iph_read ah0 = Roundtrip.Common.Err (Roundtrip.Common.EContent 0) /\
+  Roundtrip.IpHeaders.iph_from_slice ah0 = Roundtrip.Common.Err (Roundtrip.Common.EContent 0).
+Proof. cbv zeta. repeat split; vm_compute; try reflexivity; discriminate. Qed.
+(* ==== round3 c06rd end ==== *)
